@@ -277,6 +277,36 @@ func runCase(c caseT) (viol []string, forced bool) {
 	for _, b := range bs {
 		b.wait(3 * time.Millisecond)
 	}
+	// "after Close has returned every output channel is closed": if a Close call already returned while A is
+	// still parked, the channels must be closed now (checked before the park is released)
+	drainStarted := false
+	if closedByB && forced {
+		returned := false
+		for _, b := range bs {
+			select {
+			case <-b.done:
+				returned = true
+			default:
+			}
+		}
+		if returned {
+			if c.Consumer == "notreading" {
+				drainStarted = true
+				go func() {
+					defer close(closed1)
+					for range ch1 {
+					}
+				}()
+			}
+			for name, ch := range map[string]chan struct{}{"subject subscription": closed1, "other subscription": closed2} {
+				select {
+				case <-ch:
+				case <-time.After(300 * time.Millisecond):
+					bad("close: a Close call returned (A still parked at %s) but the output channel of the %s is not closed", c.A, name)
+				}
+			}
+		}
+	}
 	park.Release()
 	all := append(append([]*callRes{a}, bs...), outstanding...)
 	for _, r := range all {
@@ -335,7 +365,7 @@ func runCase(c caseT) (viol []string, forced bool) {
 		bad("panic in Close: %v", fin.pnc)
 	}
 	// after Close: channels closed, calls refused, no goroutines
-	if c.Consumer == "notreading" && !(cancelled1 && !closedByB) {
+	if c.Consumer == "notreading" && !(cancelled1 && !closedByB) && !drainStarted {
 		go func() {
 			defer close(closed1)
 			for range ch1 {
